@@ -55,6 +55,7 @@ theorem C15_dispatch (w : World α) (n : Nat) (nd : Node α) (hn : w.nodes[n]? =
 def toggle : Op α → Bool
   | .setValue _ _ => false
   | .setError _ _ => false
+  | .setRel _ _ => false
   | .setCorr _ _ _ => false
   | .resetCorr => false
   | _ => true
@@ -96,6 +97,7 @@ theorem C15_core_unchanged (w : World α) (op : Op α) (h : toggle op = true) :
   cases op with
   | setValue _ _ => simp [toggle] at h
   | setError _ _ => simp [toggle] at h
+  | setRel _ _ => simp [toggle] at h
   | setCorr _ _ _ => simp [toggle] at h
   | resetCorr => simp [toggle] at h
   | read n =>
@@ -129,6 +131,7 @@ theorem step_cache (w : World α) (op : Op α) (n : Nat) (nd' : Node α) (r : α
   cases op with
   | setValue i v => exact Or.inr ⟨nd', by simpa [step] using hn', hr⟩
   | setError i v => exact Or.inr ⟨nd', by simpa [step] using hn', hr⟩
+  | setRel i v => exact Or.inr ⟨nd', by simpa [step] using hn', hr⟩
   | setCorr i j v => exact Or.inr ⟨nd', by simpa [step] using hn', hr⟩
   | resetCorr => exact Or.inr ⟨nd', by simpa [step] using hn', hr⟩
   | setGlobal m => exact Or.inr ⟨nd', by simpa [step] using hn', hr⟩
